@@ -85,6 +85,63 @@ def _job(a):
                 "paths": 0, "solver_time": 0.0, "solver_calls": 0, "witness": None, "wall": 0}
 
 
+def _child(conn, a):
+    try:
+        conn.send(_job(a))
+    finally:
+        conn.close()
+
+
+def _run_jobs(jobs, nproc, job_timeout_s):
+    """One forked process per job, at most nproc at a time.  A worker that dies
+    (e.g. a solver crash) or exceeds the time limit yields a checker error for
+    that job only -- it can neither hang the run nor be mistaken for a verdict."""
+    ctxm = mp.get_context("fork")
+    pending = list(reversed(jobs))
+    running = []
+    results = []
+
+    def crashed(a, why):
+        return {"ci": a[1], "gi": a[2], "obligations": {}, "undecided": [], "errors": [why],
+                "paths": 0, "solver_time": 0.0, "solver_calls": 0, "witness": None, "wall": 0}
+    while pending or running:
+        while pending and len(running) < nproc:
+            a = pending.pop()
+            parent, child = ctxm.Pipe(duplex=False)
+            p = ctxm.Process(target=_child, args=(child, a))
+            p.start()
+            child.close()
+            running.append((p, parent, a, time.time()))
+        still = []
+        for (p, conn, a, t0) in running:
+            if conn.poll(0.02):
+                try:
+                    results.append(conn.recv())
+                except (EOFError, OSError):
+                    p.join(1)
+                    results.append(crashed(a, "worker died (exit code %s)" % p.exitcode))
+                p.join(5)
+                conn.close()
+            elif not p.is_alive():
+                if conn.poll(0.1):
+                    try:
+                        results.append(conn.recv())
+                    except (EOFError, OSError):
+                        results.append(crashed(a, "worker died (exit code %s)" % p.exitcode))
+                else:
+                    results.append(crashed(a, "worker died (exit code %s)" % p.exitcode))
+                conn.close()
+            elif time.time() - t0 > job_timeout_s:
+                p.kill()
+                p.join(5)
+                conn.close()
+                results.append(crashed(a, "worker exceeded %d s" % job_timeout_s))
+            else:
+                still.append((p, conn, a, t0))
+        running = still
+    return results
+
+
 def _grid_tag(g):
     if not g:
         return ""
@@ -128,6 +185,11 @@ def auto_samples(ct, g, rnd, n=24):
             elif kk in ("bytes", "bytearray", "bytelist"):
                 ln = rnd.choice([0, 1, 2, 3, 5, 16, 31, 32, 33, 70])
                 items = [rnd.randrange(256) for _ in range(ln)]
+                if items and rnd.random() < 0.6:
+                    # special byte values at the ends (whitespace, NUL, 0xFF, framing characters)
+                    items[-1] = rnd.choice([0x20, 0x0A, 0x09, 0x0D, 0x00, 0xFF, 0x7D, 0x23, 0x24, 0x2A, 0x30])
+                    if rnd.random() < 0.5:
+                        items[0] = rnd.choice([0x20, 0x0A, 0x00, 0xFF, 0x7D, 0x23, 0x24])
                 d[k] = {"__bytes__": items} if kk == "bytes" else ({"__bytearray__": items} if kk == "bytearray" else items)
             elif kk == "list":
                 ln = rnd.choice([0, 1, 2, 3, 5])
@@ -175,10 +237,7 @@ def main(argv=None):
     results = []
     if jobs:
         nproc = max(1, min(args.jobs, len(jobs)))
-        ctxm = mp.get_context("fork")
-        with ctxm.Pool(nproc, maxtasksperchild=20) as pool:
-            for r in pool.imap_unordered(_job, jobs, chunksize=1):
-                results.append(r)
+        results = _run_jobs(jobs, nproc, job_timeout_s=(900 if args.tier == "quick" else 7200))
     results.sort(key=lambda r: (r["ci"], r["gi"]))
 
     from pyvc.engine import replay_native
@@ -424,6 +483,10 @@ def main(argv=None):
     for l in vio_lines:
         print(l)
     if vio_lines:
+        for u in undecided[:15]:
+            print("UNDECIDED:", u[:400])
+        for e in errors[:5]:
+            print("CHECKER-ERROR:", e[:600])
         return 1
     if errors:
         for e in errors[:20]:
